@@ -2,7 +2,7 @@
 (a) UnionCal / NamedCal / CalType predicates over member Cals whose holiday set and week mask are FREE sets;
 (b) NamedCal::try_new on strings of the name grammar, compared for a symbolic date with the explicit combination;
 (c) the four hand-written == impls with the 84k-day loop summarised by one symbolic day (cal_date_range checked apart)."""
-import z3, json, itertools
+import z3, json, itertools, re
 from vlib import common as C
 from specs.dual_common import *
 from specs.cal_common import modifier_enum
@@ -46,6 +46,20 @@ def name_strings(tier):
     base = ["tgt", "ldn", "fed", "all"]
     out = ["tgt", "LDN", "tgt,ldn", "Tgt,Ldn|fed", "tgt|ldn", "tgt,ldn|ldn", "ldn,tgt|tgt,fed", "fed|fed", "all", "tgt,all|ldn",
            "xyz", "tgt,xyz", "tgt|xyz", "tgt|ldn|fed", "tgt||ldn", "", "tgt,", "|tgt"]
+    # letter case per POSITION of the grammar: every comma/pipe separated token of a seed is upper-cased, capitalised and
+    # mixed-cased on its own (all other tokens stay lower case), plus the all-upper form; a case rule applied to only one
+    # part of the string (seeded change C06-5: the part after '|' not lower-cased) shows on exactly one of these
+    seeds = ["tgt,ldn|fed,all", "tgt|fed"] if tier == "quick" else ["tgt,ldn|fed,all", "tgt|fed", "ldn,fed,tgt", "all|tgt,ldn,fed", "xyz|tgt", "tgt|xyz", "tgt|ldn|fed"]
+    forms = (str.upper, str.capitalize) if tier == "quick" else (str.upper, str.capitalize, lambda t: t[0] + t[1:].upper(), lambda t: t[:-1] + t[-1].upper())
+    for seed in seeds:
+        toks = re.split(r"([,|])", seed)
+        for i in range(0, len(toks), 2):
+            for f in forms:
+                v = "".join(f(t) if j == i else t for j, t in enumerate(toks))
+                if v not in out:
+                    out.append(v)
+        if seed.upper() not in out:
+            out.append(seed.upper())
     if tier == "thorough":
         out += [",".join(p) for p in itertools.permutations(base, 3)][:8] + ["TGT,LDN,FED|ALL,tgt", "fed,all|tgt,ldn", "ldn|tgt,ldn", "nyc,tgt|fed"]
     return out
